@@ -87,7 +87,7 @@ def _z3(clauses, nv):
             f.write(' '.join(map(str, c)) + ' 0\n')
         name = f.name
     try:
-        out = subprocess.run(['z3', '-dimacs', name], stdout=subprocess.PIPE, text=True, timeout=3600).stdout
+        out = subprocess.run(['z3', '-T:900', '-dimacs', name], stdout=subprocess.PIPE, text=True, timeout=3600).stdout
     finally:
         os.unlink(name)
     lines = out.split('\n')
